@@ -10,6 +10,8 @@ alpha has two halves, both written without importing anything from htmltools:
 spec/trace/ParseTrace.tla compares ElementView(tree) with the token events."""
 from __future__ import annotations
 
+import re
+
 from ..core import Prop, cps, uncps
 from .. import gamma
 from .layout import _LayoutBase, names as layout_names
@@ -153,10 +155,10 @@ def tokenize(s: str):
             evs.append({"e": "self" if selfclose else "start", "name": name, "attrs": attrs, "t": []})
             i = j
             if not selfclose and name.lower() in ("script", "style"):
-                low = s.lower()
-                k = low.find("</" + name.lower(), i)
-                if k == -1:
-                    k = n
+                # (ASCII case-insensitive search on the string itself: str.lower() can change the length - U+0130 -
+                #  and with it every index behind such a character)
+                m_end = re.compile("</" + re.escape(name), re.I | re.A).search(s, i)
+                k = m_end.start() if m_end else n
                 if k > i:
                     evs.append({"e": "text", "name": "", "attrs": [], "t": cps(s[i:k])})
                 i = k
